@@ -23,6 +23,8 @@ struct Run {
     document: String,
     /// relative path of the query file inside the case directory
     query_rel: String,
+    /// Some(target): `query_rel` is a symbolic link to this (differently named) file
+    query_link_target: Option<String>,
     out_dir: Option<String>,
     no_formatting: bool,
     /// the harness's own flag -> option table
@@ -129,6 +131,9 @@ fn gen_run(tape: &[u8], stats: &mut GenStats, with_failure_clause: bool) -> Opti
         args.push("--no-formatting".into());
     }
     let query_rel = (*t.pick(&["query.graphql", "my.query.graphql", "sub/nested.query.gql", "noext", "Query File.graphql"])).to_string();
+    // content-store layouts: the path given on the command line is a link to a blob elsewhere
+    let query_link_target = if t.chance(12) { Some((*t.pick(&["store/3f9a1c-blob.graphql", "blob.txt", "sub/other_name.graphql"])).to_string()) } else { None };
+    let query_link_target = query_link_target.filter(|x| x != &query_rel);
     let out_dir = if t.chance(45) { Some((*t.pick(&["out", "out.dir", "deep/er/out"])).to_string()) } else { None };
     if let Some(o) = &out_dir {
         flag(&mut args, "-o", "--output-directory", Some(o.clone()));
@@ -152,7 +157,27 @@ fn gen_run(tape: &[u8], stats: &mut GenStats, with_failure_clause: bool) -> Opti
     }
     let mut document = b.case.document.clone();
     let mut invalid_rule = None;
-    if !with_failure_clause && opts.operation_name.is_none() && t.chance(6) {
+    let mut no_formatting = no_formatting;
+    if !with_failure_clause && opts.operation_name.is_none() && t.chance(5) {
+        // many operations in one file: every module embeds the whole document, so the output grows
+        // quadratically (well past any pipe buffer when piped through rustfmt)
+        let mut bulk = b.world.doc.clone();
+        let ops: Vec<crate::world::query::Operation> = b.world.doc.operations().cloned().collect();
+        let want = t.range(12, 20);
+        let mut k = 0;
+        while bulk.operations().count() < want && !ops.is_empty() {
+            let mut o = ops[k % ops.len()].clone();
+            o.name = Some(format!("{}Bulk{}", o.name.clone().unwrap_or_default(), k));
+            o.shorthand = false;
+            bulk.defs.push(crate::world::query::Definition::Op(o));
+            k += 1;
+        }
+        document = crate::world::query::render_document(&bulk, &b.world.schema, &crate::world::query::QueryStyle { trivia: None });
+        if t.chance(75) && no_formatting {
+            no_formatting = false;
+            args.retain(|a| a != "--no-formatting");
+        }
+    } else if !with_failure_clause && opts.operation_name.is_none() && t.chance(6) {
         // a document of fragments only (a shared fragments file): the library yields no items,
         // the file is the header alone
         let only = crate::world::query::Document { defs: b.world.doc.defs.iter().filter(|d| matches!(d, crate::world::query::Definition::Frag(_))).cloned().collect() };
@@ -178,7 +203,7 @@ fn gen_run(tape: &[u8], stats: &mut GenStats, with_failure_clause: bool) -> Opti
         1 => Some("// old generated file\n".to_string()),
         _ => Some("// old generated file, longer than the new one\n".repeat(6000)),
     };
-    Some(Run { tape: tape.to_vec(), schema_text: b.case.schema_text.clone(), schema_ext: b.case.schema_ext.clone(), schema_file, document, query_rel, out_dir, no_formatting, opts, args, invalid_rule, preexisting_target, n_flags })
+    Some(Run { tape: tape.to_vec(), schema_text: b.case.schema_text.clone(), schema_ext: b.case.schema_ext.clone(), schema_file, document, query_rel, query_link_target, out_dir, no_formatting, opts, args, invalid_rule, preexisting_target, n_flags })
 }
 
 fn expected_target(r: &Run) -> String {
@@ -195,7 +220,15 @@ fn execute(dir: &Path, r: &Run) -> Result<(), (Option<&'static str>, String)> {
     std::fs::create_dir_all(dir).map_err(|e| (None, e.to_string()))?;
     let qpath = dir.join(&r.query_rel);
     std::fs::create_dir_all(qpath.parent().unwrap()).unwrap();
-    std::fs::write(&qpath, &r.document).unwrap();
+    match &r.query_link_target {
+        None => std::fs::write(&qpath, &r.document).unwrap(),
+        Some(target) => {
+            let tp = dir.join(target);
+            std::fs::create_dir_all(tp.parent().unwrap()).unwrap();
+            std::fs::write(&tp, &r.document).unwrap();
+            std::os::unix::fs::symlink(&tp, &qpath).map_err(|e| (None, format!("infrastructure: symlink: {}", e)))?;
+        }
+    }
     let spath = dir.join(&r.schema_file);
     std::fs::create_dir_all(spath.parent().unwrap()).unwrap();
     std::fs::write(&spath, &r.schema_text).unwrap();
@@ -256,7 +289,7 @@ fn execute(dir: &Path, r: &Run) -> Result<(), (Option<&'static str>, String)> {
 }
 
 fn replay_value(r: &Run, observed: &str) -> Value {
-    json!({"engine": "e3", "tape_hex": crate::tape::hex(&r.tape), "schema": r.schema_text, "schema_ext": r.schema_ext, "schema_file": r.schema_file, "document": r.document, "query_rel": r.query_rel, "out_dir": r.out_dir, "no_formatting": r.no_formatting, "opts": r.opts, "args": r.args, "invalid_rule": r.invalid_rule, "preexisting_target": r.preexisting_target, "observed": observed})
+    json!({"engine": "e3", "tape_hex": crate::tape::hex(&r.tape), "schema": r.schema_text, "schema_ext": r.schema_ext, "schema_file": r.schema_file, "document": r.document, "query_rel": r.query_rel, "query_link_target": r.query_link_target, "out_dir": r.out_dir, "no_formatting": r.no_formatting, "opts": r.opts, "args": r.args, "invalid_rule": r.invalid_rule, "preexisting_target": r.preexisting_target, "observed": observed})
 }
 
 fn from_replay(v: &Value) -> Option<Run> {
@@ -267,6 +300,7 @@ fn from_replay(v: &Value) -> Option<Run> {
         schema_file: v["schema_file"].as_str().map(|s| s.to_string()).unwrap_or_else(|| format!("schema.{}", v["schema_ext"].as_str().unwrap_or("graphql"))),
         document: v["document"].as_str()?.to_string(),
         query_rel: v["query_rel"].as_str()?.to_string(),
+        query_link_target: v["query_link_target"].as_str().map(|s| s.to_string()),
         out_dir: v["out_dir"].as_str().map(|s| s.to_string()),
         no_formatting: v["no_formatting"].as_bool().unwrap_or(true),
         opts: serde_json::from_value(v["opts"].clone()).ok()?,
@@ -278,7 +312,7 @@ fn from_replay(v: &Value) -> Option<Run> {
 }
 
 pub fn run(report: &mut Report, replay: Option<&Value>) {
-    report.rule = "supported (schema, query) pairs x flag combinations (short / long spellings; variables / response derives, the three deprecation strategies, module visibility pub / private, custom scalars module, other-variant, external enums, selected operation) x output placement (beside the query file; -o dir; stems with extra dots, no extension, spaces, sub-directories) x --no-formatting on/off x pre-existing target file x schema file name (.graphql / .graphqls / .gql / .json, extra dots, sub-directory) x documents of fragments only (header-only file); plus invalidating edits of the C06 catalogue for the failure clause. Oracle: exit 0 and the only changed file is <stem>.rs at the expected place with content `#![allow(clippy::all, warnings)]\\n` + the tokens of the library called in-process with options from the harness's own flag table (formatted runs: the expectation piped through the same rustfmt); on a generation error: exit != 0 and the directory tree (incl. a pre-existing target) is unchanged. Non-trivial: >= 3 flags, a non-default placement, or the failure clause; distinct by (inputs, argument vector).".into();
+    report.rule = "supported (schema, query) pairs x flag combinations (short / long spellings; variables / response derives, the three deprecation strategies, module visibility pub / private, custom scalars module, other-variant, external enums, selected operation) x output placement (beside the query file; -o dir; stems with extra dots, no extension, spaces, sub-directories) x --no-formatting on/off x pre-existing target file x schema file name (.graphql / .graphqls / .gql / .json, extra dots, sub-directory) x documents of fragments only (header-only file) x query path given as a symbolic link to a differently named file x documents of 12-20 operations (output far beyond a pipe buffer, mostly through rustfmt); plus invalidating edits of the C06 catalogue for the failure clause. Oracle: exit 0 and the only changed file is <stem>.rs at the expected place with content `#![allow(clippy::all, warnings)]\\n` + the tokens of the library called in-process with options from the harness's own flag table (formatted runs: the expectation piped through the same rustfmt); on a generation error: exit != 0 and the directory tree (incl. a pre-existing target) is unchanged. Non-trivial: >= 3 flags, a non-default placement, or the failure clause; distinct by (inputs, argument vector).".into();
     report.assumptions = vec!["rustfmt as installed is deterministic".into(), "documented --module-visibility values are `pub` and `private`".into()];
     if let Err(e) = crate::e3::ensure_cli_built() {
         report.infra(e);
@@ -292,7 +326,11 @@ pub fn run(report: &mut Report, replay: Option<&Value>) {
             report.nontrivial.insert(2);
             if let Err((key, what)) = execute(&root.join("replay"), &r) {
                 let vv = v.clone();
-                report.failure(key, "replay", &format!("replayed: {}", what), || vv);
+                if what.starts_with("infrastructure:") && !what.starts_with("infrastructure: timeout:") {
+                    report.infra(what);
+                } else {
+                    report.failure(key, "replay", &format!("replayed: {}", what), || vv);
+                }
             }
         }
         let _ = std::fs::remove_dir_all(&root);
@@ -356,7 +394,26 @@ pub fn run(report: &mut Report, replay: Option<&Value>) {
         if i < 3 {
             report.sample(json!({"args": r.args, "query_file": r.query_rel, "expected_target": expected_target(r), "invalid_rule": r.invalid_rule, "result": format!("{:?}", res)}));
         }
+        if r.query_link_target.is_some() {
+            report.feature("query_path_is_a_symlink");
+        }
+        if r.document.matches("Bulk").count() >= 8 {
+            report.feature(if r.no_formatting { "bulk_document_unformatted" } else { "bulk_document_through_rustfmt" });
+        }
         if let Err((key, what)) = res {
+            if what.starts_with("infrastructure: timeout:") {
+                // confirm alone (nothing else running): a command that again does not finish has not written its file
+                report.count_extra("cli_timeouts_rechecked_alone", 1);
+                match execute(&root.join(format!("again{}", i)), r) {
+                    Err((_, w2)) if w2.starts_with("infrastructure: timeout:") => {
+                        let replay = replay_value(r, &w2);
+                        report.failure(None, "c19:command-does-not-finish", &format!("graphql-client {}: valid inputs, but the command does not finish (twice, the second time alone) and writes no file: {}", r.args.join(" "), w2), || replay);
+                    }
+                    _ => report.count_extra("cli_timeouts_not_reproduced", 1),
+                }
+                let _ = std::fs::remove_dir_all(root.join(format!("again{}", i)));
+                continue;
+            }
             if what.starts_with("infrastructure:") {
                 report.infra(what);
                 continue;
